@@ -17,7 +17,11 @@ RULE = (
     "newlines/control/non-ASCII/'//'/';', bytes, bytearray, well- and ill-formed base16/32/64, addresses, "
     "method signatures, ints/bool/float) -> compileTeal(Seq(Pop(lit), Int(1))) -> emitted line decoded by "
     "vf/teal/parser.py and compared with Python's own decoding. non-trivial = literal needs >=1 escape "
-    "(str), or is a non-empty base-N/bytes/addr/method form, or an int >= 2**32; distinct by (kind, value)."
+    "(str), or is a non-empty base-N/bytes/addr/method form, or an int >= 2**32; distinct by (kind, value). "
+    "Second family: programs with 2..6 literals that share text or value across kinds (a signature as Bytes(str) and as "
+    "MethodSignature, a hex/base32/base64 string as text and as encoded bytes, an address as Addr and as text), compiled "
+    "with assembleConstants off and on; every constant-loading site (incl. bytec/intc indices into the constant blocks) "
+    "must denote its own literal's value."
 )
 ASSUMPTIONS = [
     "vf/teal/parser.py implements the go-algorand assembler's tokenizer and literal grammar faithfully",
@@ -143,6 +147,10 @@ def case_strategy(draw):
 # ---------------------------------------------------------------- independent classification
 
 
+def json_key(a):
+    return a if isinstance(a, str) else tuple(sorted(a.items()))
+
+
 def classify(case):
     """-> ('well', expected_value) | ('ill', None) | ('open', value or None).
     'well': must be accepted and denote value. 'ill': must be rejected (or, if accepted, emitted text must
@@ -225,9 +233,48 @@ def build(case):
     raise ValueError(k)
 
 
+def judge_multi(case):
+    """several well-formed literals in ONE program (the same text may appear as Bytes, as MethodSignature, in another
+    base); every site must load the value its own literal denotes, with and without assembleConstants"""
+    import pyteal as pt
+
+    from .c12 import _const_of
+
+    wants, lits = [], []
+    for item in case["items"]:
+        cls, want = classify(item)
+        if cls != "well":
+            return []
+        try:
+            lits.append(build(item))
+        except pt.TealInputError:
+            return []  # the single-literal family reports these
+        wants.append(want)
+    out = []
+    for asm in (False, True):
+        try:
+            teal = pt.compileTeal(pt.Seq(*[pt.Pop(l) for l in lits], pt.Int(1)), pt.Mode.Application, version=case.get("version", 6), assembleConstants=asm)
+            prog = tp.parse(teal)
+            sites = [i for i in prog.instrs if i.op not in ("intcblock", "bytecblock", "pop", "return")]
+            got = [_const_of(i, prog) for i in sites]
+        except Exception as e:  # noqa
+            out.append(("multi-crash:%s" % type(e).__name__, "assembleConstants=%s: %r for %r" % (asm, e, case)))
+            continue
+        if len(got) != len(wants) + 1:
+            out.append(("multi-shape", "assembleConstants=%s: %d constant sites for %d literals: %r" % (asm, len(got) - 1, len(wants), teal)))
+            continue
+        for idx, (g, w) in enumerate(zip(got, wants)):
+            if g != w:
+                out.append(("multi-wrong-value:%s" % case["items"][idx]["kind"], "assembleConstants=%s: literal #%d %r pushes %r, expected %r, in a program with the literals %r" % (asm, idx, case["items"][idx], g, w, case["items"])))
+                break
+    return out
+
+
 def judge(case):
     import pyteal as pt
 
+    if "items" in case:
+        return judge_multi(case)
     out = []
     cls, want = classify(case)
     try:
@@ -264,7 +311,49 @@ def judge(case):
     return out
 
 
+@st.composite
+def multi_strategy(draw):
+    """2..5 literals sharing text across kinds: a signature as Bytes(str) and MethodSignature, a hex string as Bytes(str)
+    and Bytes('base16', .), an address as Addr and as text, a value spelled in three bases, ints equal in value"""
+    items = []
+    for _ in range(draw(st.integers(1, 2))):
+        fam = draw(st.integers(0, 5))
+        if fam == 0:
+            sig = draw(st.sampled_from(["f()void", "add(uint64,uint64)uint64", "g(string,(bool,byte))byte[]", "a_1(pay,account)uint8"]))
+            grp = [{"kind": "utf8", "arg": sig}, {"kind": "method", "arg": sig}]
+            if draw(st.booleans()):
+                grp.append({"kind": "raw", "arg": hashlib.new("sha512_256", sig.encode()).digest()[:4].hex()})
+        elif fam == 1:
+            b = draw(st.binary(min_size=0, max_size=10))
+            h = b.hex()
+            grp = [{"kind": "utf8", "arg": h}, {"kind": "base16", "arg": h}, {"kind": "base16", "arg": "0x" + h}, {"kind": "raw", "arg": h}]
+        elif fam == 2:
+            pk = draw(st.binary(min_size=32, max_size=32))
+            a = tp.encode_address(pk)
+            grp = [{"kind": "addr", "arg": a}, {"kind": "utf8", "arg": a}, {"kind": "raw", "arg": pk.hex()}, {"kind": "base32", "arg": a[:56]}]
+        elif fam == 3:
+            b = draw(st.binary(min_size=0, max_size=10))
+            b32 = base64.b32encode(b).decode()
+            b64 = base64.b64encode(b).decode()
+            grp = [{"kind": "base32", "arg": b32}, {"kind": "base32", "arg": b32.rstrip("=")}, {"kind": "base64", "arg": b64}, {"kind": "utf8", "arg": b32}, {"kind": "utf8", "arg": b64}, {"kind": "raw", "arg": b.hex()}]
+        elif fam == 4:
+            t = draw(text_strategy())
+            grp = [{"kind": "utf8", "arg": t}, {"kind": "raw", "arg": t.encode("utf-8").hex()}, {"kind": "bytearray", "arg": t.encode("utf-8").hex()}]
+        else:
+            v = draw(st.sampled_from([0, 1, 6, 255, 2**32, 2**64 - 1]))
+            grp = [{"kind": "int", "arg": {"t": "int", "v": str(v)}}, {"kind": "utf8", "arg": str(v)}, {"kind": "raw", "arg": v.to_bytes(8, "big").hex()}]
+        n = draw(st.integers(2, len(grp)))
+        grp = draw(st.permutations(grp))[:n]
+        for g in grp:
+            for _ in range(draw(st.sampled_from([1, 1, 2]))):
+                items.append(g)
+    items = draw(st.permutations(items))[:6]
+    return {"items": list(items), "version": draw(st.sampled_from([3, 6, 10]))}
+
+
 def nontrivial(case) -> bool:
+    if "items" in case:
+        return len({(i["kind"], json_key(i["arg"])) for i in case["items"]}) >= 2
     k, a = case["kind"], case["arg"]
     if k == "utf8":
         return any(c in '"\\\n\r\t' or ord(c) < 0x20 or ord(c) > 0x7E for c in a)
@@ -288,8 +377,31 @@ def shard(tier, seedv, k, n, col: Collector):
 
     hyp_run(body, case_strategy(), N[tier], seedv, col=col)
 
+    def mbody(case):
+        col.case()
+        col.cls("multi-literal program")
+        kinds = {i["kind"] for i in case["items"]}
+        texts = [i["arg"] for i in case["items"] if isinstance(i["arg"], str)]
+        if len(kinds) >= 2 and len(set(texts)) < len(texts):
+            col.cls("multi:same text under >=2 literal kinds")
+        res = judge_multi(case)
+        if nontrivial(case):
+            col.nontriv(sha(case))
+        for b, d in res:
+            col.fail(b, d, case)
+
+    from .. import env
+
+    hyp_run(mbody, multi_strategy(), N[tier] // 10, env.derive(seedv, "multi"), col=col)
+
 
 def shrinks(case):
+    if "items" in case:
+        its = case["items"]
+        for i in range(len(its)):
+            if len(its) > 1:
+                yield dict(case, items=its[:i] + its[i + 1:])
+        return
     k, a = case["kind"], case["arg"]
     if isinstance(a, str) and k != "int":
         step = 2 if k in ("raw", "bytearray") else 1
